@@ -39,6 +39,7 @@ Fresh(meta, id, expect) ==
    selecting |-> {}, spawning |-> {},
    spawnAt |-> {},
    pendingA |-> {}, envGot |-> [p \in Pids |-> {}],
+   heap |-> [w \in 0..7 |-> None],          \* last heap snapshot per worker
    died |-> [p \in Pids |-> None],         \* select state a process had open when it got its result
    now |-> 0,
    expect |-> expect,                      \* <<scenario name, canonical results>> of an earlier run
@@ -47,9 +48,13 @@ Fresh(meta, id, expect) ==
 V(o, prop, rule, detail) == [o EXCEPT !.viol = Append(@, <<o.id, l, prop, rule, ToString(detail)>>)]
 Chk(o, cond, prop, rule, detail) == IF cond THEN o ELSE V(o, prop, rule, detail)
 
+\* `let` operations are local and unobservable: the observer's position skips them
+RECURSIVE SkipLets(_, _)
+SkipLets(ops, i) == IF i <= Len(ops) /\ ops[i].op = "let" THEN SkipLets(ops, i + 1) ELSE i
+PcAt(o, p) == IF o.script[p] = 0 THEN o.pc[p] ELSE SkipLets(Scripts[o.script[p]], o.pc[p])
 OpAt(o, p) ==
-  IF o.script[p] = 0 \/ o.pc[p] > Len(Scripts[o.script[p]]) THEN [op |-> "none"]
-  ELSE Scripts[o.script[p]][o.pc[p]]
+  IF o.script[p] = 0 \/ PcAt(o, p) > Len(Scripts[o.script[p]]) THEN [op |-> "none"]
+  ELSE Scripts[o.script[p]][PcAt(o, p)]
 
 (* ---------------- consumed commands ---------------- *)
 RECURSIVE LearnResults(_, _)
@@ -63,7 +68,7 @@ Consume(o, w, c) ==
   CASE c.t = "DeliverMessage" ->
          [o EXCEPT !.mbox[c.to] = Append(@, c.m), !.arrived[c.to] = Append(@, c.m)]
     [] c.t = "UpdateAwaitResults" -> [o EXCEPT !.known[c.a] = LearnResults(@, c.rs)]
-    [] c.t = "NotifySpawn" -> [o EXCEPT !.pc[c.p] = @ + 1]
+    [] c.t = "NotifySpawn" -> [o EXCEPT !.pc[c.p] = PcAt(o, c.p) + 1]
     [] c.t = "SpawnProcess" -> [o EXCEPT !.host[c.id] = w]
     [] OTHER -> o
 
@@ -87,13 +92,15 @@ FirstAccepted(mb, src) ==
 ApplyOp(o, x, now) ==
   CASE x.op = "select_init" ->
          LET op == OpAt(o, x.p) IN
-         IF op.op # "select"
+         IF o.meta.entry = 0 THEN o          \* an unscripted session: only state-based rules apply
+         ELSE IF op.op # "select"
          THEN V(o, "C03", "ScriptFollowed", <<"select executed where the script has", op.op, x.p>>)
          ELSE [o EXCEPT !.sel[x.p] = Some([srcs |-> AwaitSrcs(op.srcs, x.ts), first |-> now,
                                            start |-> IF x.ts = <<>> THEN Some(now) ELSE None]),
                         !.known[x.p] = ResetKnown(@, x.ts)]
     [] x.op = "select_complete" ->
-         IF o.sel[x.p] = None
+         IF o.meta.entry = 0 THEN o
+         ELSE IF o.sel[x.p] = None
          THEN V(o, "C05", "SelectOpen", <<"completion without an open select", x.p>>)
          ELSE IF x.src > Len(o.sel[x.p][1].srcs)
          THEN V(o, "C03", "ScriptFollowed", <<"select completed through a source the script does not list", x.p, x.src>>)
@@ -119,7 +126,7 @@ ApplyOp(o, x, now) ==
                     [] src.k = "timeout" ->
                          Chk(o1, x.v = Nil /\ now - st.first >= src.d,
                              "C05", "TimeoutNotEarly", <<x.p, src.d, st.first, now, x.v>>)
-         IN [o2 EXCEPT !.sel[x.p] = None, !.pc[x.p] = @ + 1]
+         IN [o2 EXCEPT !.sel[x.p] = None, !.pc[x.p] = PcAt(o, x.p) + 1]
     [] x.op = "filter_verdict" ->
          IF o.sel[x.p] = None THEN o
          ELSE LET st == o.sel[x.p][1]
@@ -151,31 +158,32 @@ Runner(ops) == IF \E i \in 1..Len(ops) : ops[i].op = "run"
 (* ---------------- emitted events ---------------- *)
 Emitted(o, p, e) ==
   CASE e.t = "SpawnAction" ->
+         IF o.meta.entry = 0 THEN o ELSE
          LET op == OpAt(o, e.c)
              o1 == Chk(o, op.op = "spawn", "C04", "SpawnExactlyOnce",
                        <<"spawn executed where the script has", op.op, e.c>>)
-             o2 == Chk(o1, <<e.c, o.pc[e.c]>> \notin o.spawnAt, "C04", "SpawnExactlyOnce",
-                       <<"spawn operation executed twice", e.c, o.pc[e.c]>>)
-         IN [o2 EXCEPT !.spawnAt = @ \cup {<<e.c, o.pc[e.c]>>}]
+             o2 == Chk(o1, <<e.c, PcAt(o, e.c)>> \notin o.spawnAt, "C04", "SpawnExactlyOnce",
+                       <<"spawn operation executed twice", e.c, PcAt(o, e.c)>>)
+         IN [o2 EXCEPT !.spawnAt = @ \cup {<<e.c, PcAt(o, e.c)>>}]
     [] e.t = "DeliverAction" ->
-         IF p < 0 THEN o
+         IF p < 0 \/ o.meta.entry = 0 THEN o
          ELSE LET op == OpAt(o, p)
                   o1 == Chk(o, op.op = "send", "C03", "ScriptFollowed",
                             <<"send executed where the script has", op.op, p>>)
-              IN [o1 EXCEPT !.sent[p][e.to] = Append(@, e.m), !.pc[p] = @ + 1]
+              IN [o1 EXCEPT !.sent[p][e.to] = Append(@, e.m), !.pc[p] = PcAt(o, p) + 1]
     [] OTHER -> o
 
 RECURSIVE FoldEmitted(_, _, _)
 FoldEmitted(o, p, es) == IF es = <<>> THEN o ELSE FoldEmitted(Emitted(o, p, Head(es)), p, Tail(es))
 
 (* ---------------- post snapshot ---------------- *)
-Snapshot(o, w, pr, completedHere) ==
+Snapshot(o, w, pr, completedHere, resumedHere) ==
   LET p == pr.p
       o1 == Chk(o, pr.mailbox = o.mbox[p],
                 IF p \in completedHere THEN "C05" ELSE "C04",
                 IF p \in completedHere THEN "MailboxPreserved" ELSE "ExactlyOnce",
                 <<p, "mailbox", pr.mailbox, "expected", o.mbox[p]>>)
-      resumed == pr.persistent /\ pr.result = <<>>
+      resumed == pr.persistent /\ (pr.result = <<>> \/ p \in resumedHere)
       o2 == Chk(o1, o.res[p] = None \/ pr.result = o.res[p] \/ resumed,
                 "C15", "ResultStable", <<p, o.res[p], pr.result>>)
       st == IF pr.sel = <<>> \/ o.sel[p] = None THEN o.sel[p]
@@ -187,9 +195,32 @@ Snapshot(o, w, pr, completedHere) ==
                 !.host[p] = w,
                 !.died[p] = IF o.res[p] = None /\ pr.result # <<>> THEN pr.sel ELSE @]
 
-RECURSIVE FoldSnap(_, _, _, _)
-FoldSnap(o, w, prs, done) ==
-  IF prs = <<>> THEN o ELSE FoldSnap(Snapshot(o, w, Head(prs), done), w, Tail(prs), done)
+RECURSIVE FoldSnap(_, _, _, _, _)
+FoldSnap(o, w, prs, done, resumed) ==
+  IF prs = <<>> THEN o ELSE FoldSnap(Snapshot(o, w, Head(prs), done, resumed), w, Tail(prs), done, resumed)
+
+(* ---------------- C06: heap accounting at every slice boundary ---------------- *)
+HeapRules(o, w, h) ==
+  LET n == Len(h.rc)
+      S == 0..(n - 1)
+      reach == ToSet(h.reach)
+      free == ToSet(h.free)
+      pend == ToSet(h.pending)
+      badCount == {s \in S : (h.rc[s + 1] > 0) # (s \in reach)}
+      o1 == Chk(o, badCount = {}, "C06", "Counted", {<<s, h.rc[s + 1], s \in reach>> : s \in badCount})
+      o2 == Chk(o1, \A s \in reach : s \in S /\ ~h.freed[s + 1], "C06", "NoReachableFreed",
+                {s \in reach : s \notin S \/ h.freed[s + 1]})
+      o3 == Chk(o2, (\A s \in S : h.freed[s + 1] <=> s \in free) /\
+                    (\A i, j \in 1..Len(h.free) : h.free[i] = h.free[j] => i = j),
+                "C06", "FreeList", <<h.free, h.freed>>)
+      orphans == {s \in S : ~h.freed[s + 1] /\ h.rc[s + 1] = 0 /\ s \notin pend}
+      o4 == Chk(o3, orphans = {}, "C06", "NoOrphan", orphans)
+      prev == o.heap[w]
+      changed == IF prev = None THEN {}
+                 ELSE {s \in ToSet(prev[1].reach) \cap S :
+                         ~h.freed[s + 1] /\ (prev[1].hash[s + 1] # h.hash[s + 1] \/ prev[1].len[s + 1] # h.len[s + 1])}
+      o5 == Chk(o4, changed = {}, "C06", "ContentStable", changed)
+  IN [o5 EXCEPT !.heap[w] = Some(h)]
 
 WorkerRecord(o, r) ==
   IF Has(r, "crash")
@@ -201,9 +232,11 @@ WorkerRecord(o, r) ==
       o2 == FoldOps(o1, r.ops, r.now)
       o3 == FoldEmitted(o2, p, r.emitted)
       done == {r.ops[i].p : i \in {i \in 1..Len(r.ops) : r.ops[i].op = "select_complete"}}
-      o4 == FoldSnap(o3, w, r.post.procs, done)
+      resumed == {r.consumed[i].id : i \in {i \in 1..Len(r.consumed) : r.consumed[i].t = "ResumeProcess"}}
+      o4 == FoldSnap(o3, w, r.post.procs, done, resumed)
       hosted == {q \in Pids : o4.host[q] = w}
-  IN [o4 EXCEPT !.selecting = (@ \ hosted) \cup ToSet(r.post.selecting),
+      o5 == HeapRules(o4, w, r.post.heap)
+  IN [o5 EXCEPT !.selecting = (@ \ hosted) \cup ToSet(r.post.selecting),
                 !.spawning = (@ \ hosted) \cup ToSet(r.post.spawning),
                 !.now = r.now]
 
@@ -227,7 +260,7 @@ EnvRecord(o, r) ==
                      op == OpAt(o0, e.c)
                  IN IF op.op # "spawn" \/ id \notin Pids THEN o0
                     ELSE [o0 EXCEPT !.script[id] = op.script, !.pc[id] = 1,
-                                    !.path[id] = Append(o0.path[e.c], o0.pc[e.c])]
+                                    !.path[id] = Append(o0.path[e.c], PcAt(o0, e.c))]
     [] e.t = "DeliverAction" ->
          LET dm == CmdsOf(r, "DeliverMessage") IN
          Chk(o0, Len(dm) = 1 /\ dm[1].c.to = e.to /\ dm[1].c.m = e.m,
@@ -324,7 +357,11 @@ AtQuiescence(o, r) ==
   IN o6
 
 EndRecord(o, r) ==
-  LET o1 == Always(o) IN
+  LET o0 == IF Has(o.meta, "expected_outcome")
+            THEN Chk(o, r.outcome.t = "value" /\ r.outcome.v = o.meta.expected_outcome,
+                     "C06", "ContentPreserved", <<r.outcome, o.meta.expected_outcome>>)
+            ELSE o
+      o1 == Always(o0) IN
   IF r.quiescent THEN AtQuiescence(o1, r)
   ELSE IF o.meta.terminates THEN V(o1, "C03", "NoHang", "step budget exhausted before quiescence")
   ELSE o1
